@@ -118,6 +118,8 @@ type Analyzer struct {
 	// loop-invariant inference relates them to the program's counters.
 	Ghosts   []*ssa.Phi
 	ghostSet map[ssa.Value]bool
+	// OnStore observes stores of the entry function: the value held before and the value stored.
+	OnStore func(fn *ssa.Function, ins *ssa.Store, st *State, old, val Term)
 	// OnBranch observes every conditional edge after its condition has been assumed.
 	OnBranch func(fn *ssa.Function, iff *ssa.If, taken bool, st *State)
 	// OnReturn observes every return of the entry function before return states are merged.
@@ -567,6 +569,21 @@ func (a *Analyzer) runLoop1(fr *frame, h *ssa.BasicBlock, body map[*ssa.BasicBlo
 			comps = append(comps, &phiComp{phi: g, kind: 0, alpha: a.freshAtom("φ"+g.Comment, nil), entry: e.L})
 		}
 	}
+	// the entry values of loop-carried variables appear in the candidate relations: facts about
+	// them must survive garbage collection inside the body even when nothing else mentions them
+	{
+		var keep []Term
+		for _, c := range comps {
+			if c.kind == 0 || c.kind == 1 {
+				keep = append(keep, Int{c.entry})
+			}
+			if c.kind == 1 {
+				keep = append(keep, Int{c.entryOff})
+			}
+		}
+		a.rootStack = append(a.rootStack, &rootSet{extra: keep})
+		defer func() { a.rootStack = a.rootStack[:len(a.rootStack)-1] }()
+	}
 	type cand struct {
 		l    Lin
 		dead bool
@@ -904,6 +921,9 @@ func (a *Analyzer) runLoop1(fr *frame, h *ssa.BasicBlock, body map[*ssa.BasicBlo
 			for _, B := range backs {
 				g, ok := subst(c.l, B, false)
 				if !ok || !B.Cons.EntailsGE(g) {
+					if debugLoop {
+						fmt.Printf("    cand %s >= 0 dies (subst ok=%v: %s)\n", c.l, ok, g)
+					}
 					c.dead = true
 					changed = true
 					break
